@@ -314,6 +314,21 @@ def _gen_distinct(rng, D, P, shape):
     return x
 
 
+def _gen_max_ties(rng, D, P, tier):
+    # several entries share the maximal zeroth coefficient exactly (a kink of max): which of them is taken is a convention, but it
+    # must not depend on the truncation degree, the other directions or the memory layout
+    n = rng.randint(2, 5)
+    x = rand_coeffs(rng, (D, P, n), -2, 2)
+    for p in range(P):
+        vals = [k / 8.0 for k in range(-16, 9)]
+        x[0, p] = np.array([rng.choice(vals) for _ in range(n)])
+        top = float(np.max(x[0, p])) + 0.5
+        for i in rng.sample(range(n), rng.randint(2, n)):
+            x[0, p, i] = top
+    return [U(x)]
+
+
+op('max:ties', _gen_max_ties, lambda a: UTPM.max(a[0]), lambda z: np.max(z[0]), tags=('shape',))
 op('max', lambda rng, D, P, t: [U(_gen_distinct(rng, D, P, (rng.randint(1, 5),)))], lambda a: UTPM.max(a[0]),
    lambda z: np.max(z[0]), tags=('shape',))
 
@@ -439,6 +454,45 @@ op('det', lambda rng, D, P, t: [U(gen_square(rng, D, P, rng.randint(1, 3)))], la
 
 def _gen_logdet(rng, D, P, tier):
     return [U(gen_square(rng, D, P, rng.randint(1, 3), 'spd'))]
+
+
+def _gen_expm(rng, D, P, tier, amps=(1e-3, 0.05, 0.3, 0.5)):
+    n = rng.randint(1, 3)
+    x = rand_coeffs(rng, (D, P, n, n), -0.5, 0.5)
+    # every direction gets the same 1-norm: the Pade order chosen from the norms is then the same for the directions together
+    # and for each of them alone (with different orders the results differ by the Pade remainder, not by rounding; directions in
+    # different ranges are compared with the exponential series by C07)
+    amp = rng.choice(list(amps))
+    for p in range(P):
+        a = rand_coeffs(rng, (n, n), -1, 1) + np.eye(n) * 0.25
+        if np.linalg.norm(a, 1) < 0.1:
+            a = np.eye(n)
+        x[0, p] = a / np.linalg.norm(a, 1) * amp
+    return [U(x)]
+
+
+op('expm', _gen_expm, lambda a: algopy.expm(a[0]), lambda z: scipy.linalg.expm(z[0]), tags=('linalg',))
+op('expm_higham', lambda rng, D, P, t: _gen_expm(rng, D, P, t, (1e-3, 0.05, 0.4, 0.6, 1.5, 1.9)), lambda a: algopy.expm_higham_2005(a[0]),
+   lambda z: scipy.linalg.expm(z[0]), tags=('linalg',))
+# 1-norms above theta_13: the scaling-and-squaring branch (raises NameError on the unchanged tree, which every check skips; should it
+# ever run, it must obey the properties like everything else -- e.g. leave its operand alone)
+op('expm_higham:large', lambda rng, D, P, t: _gen_expm(rng, D, P, t, (6.0, 8.0, 11.0)), lambda a: algopy.expm_higham_2005(a[0]), None,
+   tags=('linalg',))
+
+
+def _gen_det_pivots(rng, D, P, tier):
+    """3x3 matrices whose dominant entries sit on a different (row-permuted) diagonal in every direction: partial pivoting takes a
+    different sequence of row exchanges per direction, on every case"""
+    perms = [[0, 1, 2], [2, 1, 0], [1, 2, 0], [2, 0, 1], [0, 2, 1], [1, 0, 2]]
+    rng.shuffle(perms)
+    x = rand_coeffs(rng, (D, P, 3, 3), -1, 1)
+    for p in range(P):
+        A0 = rand_coeffs(rng, (3, 3), -1, 1) * 0.5 + 4 * np.eye(3)
+        x[0, p] = A0[perms[p % 6]]
+    return [U(x)]
+
+
+op('det:pivots', _gen_det_pivots, lambda a: algopy.det(a[0]), lambda z: np.linalg.det(z[0]), tags=('linalg',))
 
 
 def _gen_det_singular(rng, D, P, tier):
